@@ -48,7 +48,7 @@ class C10(Prop):
                    "run) the sync commands of 2-3 clones run at the same time and the controller interleaves their internal git "
                    "calls and those of each command's notes thread; a real git subprocess is atomic for the scheduler",
                    "notes for commits a repository does not have are allowed"]
-    expected_probes = ["step.commit", "step.push", "step.fetch", "step.pull", "fault.net_down", "fault.kill", "converged.checked",
+    expected_probes = ["step.commit", "step.push", "step.fetch", "step.pull", "fault.net_down", "fault.kill", "fault.step_fail", "fault.step_kill", "converged.checked",
                        "first_sync_without_notes_ref", "notes_from_two_clones", "foreign_note.written", "step.concurrent",
                        "conc.interleaved", "conc.thread_scheduled"]
 
@@ -101,12 +101,31 @@ class C10(Prop):
             kind = rng.choice(["commit", "commit", "push", "push", "fetch", "pull", "pull_rebase"])
             env = None
             if step == fault_at:
-                if rng.random() < 0.5:
+                fk = rng.choice(["net_down", "net_down", "kill", "kill", "step_fail", "step_fail", "step_kill"])
+                if fk == "net_down":
                     env = {"SIMGIT_NETDOWN": "remote.git"}
                     ex.probe("fault.net_down")
-                else:
+                elif fk == "kill":
                     env = {"SIMGIT_PLAN": "%d=kill" % rng.randint(3, 40), "SIMGIT_STATE": "{ROOT}/simgit.state"}
                     ex.probe("fault.kill")
+                else:
+                    # one named step of the notes sync fails (a lock file left by another process, a full disk, a hook
+                    # that rejects) or the wrapper dies right there: fetch into the tracking ref / merge into the local
+                    # ref / notes push / the existence checks in between
+                    words = rng.choice(["notes,merge", "notes,merge", "fetch,--no-tags", "push,--no-verify", "show-ref", "ls-remote",
+                                        "update-ref", "notes,merge"])
+                    verdict = "kill" if fk == "step_kill" else rng.choice(["fail:1", "fail:128"])
+                    env = {"SIMGIT_MATCH": "%s=%s" % (words, verdict)}
+                    ex.probe("fault." + fk)
+                    ex.probe("fault.step." + words.replace(",", "_"))
+                    # the fault is only worth something while the two sides have diverged: the clone commits first and
+                    # somebody else publishes in between
+                    other = rng.choice([c for c in cloned if c != n] or [n])
+                    for nn in (n, other):
+                        yield {"op": "sync", "kind": "commit", "clone": nn, "file": "f%d.txt" % rng.randint(0, 2),
+                               "own_branch": True, "session": "s" + nn, "lines": rng.randint(1, 3), "dt": 3000}
+                    if other != n:
+                        yield {"op": "sync", "kind": "push", "clone": other, "dt": 3000, "form": 0}
                 kind = rng.choice(["push", "fetch", "pull"])
             if cfg.get("foreign") and step == cfg["foreign"] and kind != "commit":
                 # somebody else (another tool version, a re-run CI job) overwrites one note on the remote with a
